@@ -1,6 +1,8 @@
 import DryocVerif.Proofs.Blake2bSimd
 import DryocVerif.Proofs.Blake2bMain
 import DryocVerif.Proofs.Blake2bBackend
+import DryocVerif.Proofs.Argon2Code
+import DryocVerif.Proofs.GenSimdText
 /-
 C18 — results do not depend on the backend.
 
@@ -10,8 +12,17 @@ IV, `loadm` offsets, flag order, final xors).  The theorems below hold for the t
 from the Rust source as it is now; an edit of one of those constants changes the tables and
 these theorems are re-checked (`schedule_eq_sigma`, `lanewise_g_eq`, `permute_eq`, … fail).
 
-The buffering code (`init` / `update` / `finalize`) is the same text in both backends and is
-modelled once, parametric in the compression function (`Model.Blake2b.updateC` …).
+SCOPE — what is and what is not proved here.  What is modelled separately for the two backends is the
+COMPRESSION FUNCTION only: `Model.Blake2b.compress` (blake2b_soft.rs) and `Model.Blake2bSimd.compress` (the generated
+tables), and `simd_compress_eq` proves them equal on every input.  The buffering code above it (`State::init`,
+`update`, `finalize`, `hash`, `longhash`) is modelled ONCE, from the text of blake2b_soft.rs, as functions of an
+arbitrary compression function `C` (`Model.Blake2b.initC / updateC / finalizeC / hashChunksC / hashC / longhashC`).
+Every "SIMD = software" theorem below about `init` / `update` / `finalize` / `hash` / `longhash` / `hashChunks`
+therefore compares ONE buffering model at TWO compression functions; it is a consequence of `simd_compress_eq` plus a
+congruence argument.  That the `init / update / finalize / hash / longhash` TEXT of blake2b_simd.rs is the same as
+that of blake2b_soft.rs is a PREMISE of this reading; it is not proved in Lean and is checked only by the
+three-build transcript diff of the differential run (stable / nightly / nightly + `simd_backend` builds of the
+harness must produce identical transcripts).
 -/
 namespace DryocVerif.Properties.C18
 open DryocVerif
@@ -74,8 +85,11 @@ example :
       Model.Blake2bSimd.hashChunks 32 none [List.replicate 100 1, List.replicate 60 2] := by
   decide +kernel
 
-/-- **C18, whole hash**: `init`, `update`s, `finalize` with the SIMD backend = the same with
-the software backend — same digest, same `Err`, same panic — for all arguments. -/
+/-- **C18, whole hash**: the (single, shared) buffering model `init`, `update`s, `finalize` instantiated with
+the SIMD compression function = the same model instantiated with the software compression function — same digest,
+same `Err`, same panic — for all arguments.  NB both sides are ONE buffering model at two compression functions;
+that blake2b_simd.rs's own `init`/`update`/`finalize` text equals blake2b_soft.rs's is a premise, checked only by the
+three-build transcript diff (see the header). -/
 theorem simd_hashChunks_eq (outLen : Nat) (key salt personal : Option Bytes) (cs : List Bytes) :
     hashChunksC Model.Blake2bSimd.compress outLen key salt personal cs =
       hashChunksC Model.Blake2b.compress outLen key salt personal cs :=
@@ -87,21 +101,27 @@ theorem simd_hashChunks_eq' (outLen : Nat) (key : Option Bytes) (cs : List Bytes
 
 /-! ### the incremental object API, call by call -/
 
-/-- **`State::init`** under the SIMD backend = under the software backend: same state (after the key block, if
-any, has been absorbed), same `Err`, same panic — for all arguments. -/
+/-- **`State::init`**: the shared model of `init` at the SIMD compression function = at the software one: same
+state (after the key block, if any, has been absorbed), same `Err`, same panic — for all arguments.  (One model of the
+`init` text at two compression functions; the equality of the two Rust texts is a premise checked by the three-build
+transcript diff only.) -/
 theorem simd_init_eq (outlen : Nat) (key salt personal : Option Bytes) :
     Model.Blake2bSimd.init outlen key salt personal = Model.Blake2b.init outlen key salt personal :=
   (Proofs.Blake2bSimd.initC_congr Proofs.Blake2bSimd.simd_agree outlen key salt personal).1
 
-/-- **`State::update`** under the SIMD backend = under the software backend, from any state whose chaining value
-has 8 words (the Rust type `[u64; 8]` / two `Simd<u64, 4>`), for any input; the resulting state again has 8 words,
-so the law chains along any sequence of calls. -/
+/-- **`State::update`**: the shared model of `update` at the SIMD compression function = at the software one, from
+any state whose chaining value has 8 words (the Rust type `[u64; 8]` / two `Simd<u64, 4>`), for any input; the
+resulting state again has 8 words, so the law chains along any sequence of calls.  (One model of the `update` text at
+two compression functions; the equality of the two Rust texts is a premise checked by the three-build transcript
+diff only.) -/
 theorem simd_update_eq (st : Model.Blake2b.State) (hs : st.h.size = 8) (x : Bytes) :
     Model.Blake2bSimd.update st x = Model.Blake2b.update st x ∧ (Model.Blake2b.update st x).h.size = 8 :=
   Proofs.Blake2bSimd.updateC_congr Proofs.Blake2bSimd.simd_agree st hs x
 
-/-- **`State::finalize`** under the SIMD backend = under the software backend, from any 8-word state, for any
-output length (same digest, same `Err`). -/
+/-- **`State::finalize`**: the shared model of `finalize` at the SIMD compression function = at the software one,
+from any 8-word state, for any output length (same digest, same `Err`).  (One model of the `finalize` text at two
+compression functions; the equality of the two Rust texts is a premise checked by the three-build transcript diff
+only.) -/
 theorem simd_finalize_eq (st : Model.Blake2b.State) (hs : st.h.size = 8) (outLen : Nat) :
     Model.Blake2bSimd.finalize st outLen = Model.Blake2b.finalize st outLen :=
   Proofs.Blake2bSimd.finalizeC_congr Proofs.Blake2bSimd.simd_agree st hs outLen
@@ -143,6 +163,82 @@ theorem simd_longhash_eq_hprime (outLen : Nat) (inp : Bytes) (h4 : 4 < outLen) (
 /-- non-vacuity witness (1024-byte output: the multi-chunk branch of `longhash`) -/
 example : Model.Blake2b.longhashC Model.Blake2bSimd.compress 1024 [1, 2] = .ok (Spec.Argon2.hprime 1024 [1, 2]) :=
   simd_longhash_eq_hprime 1024 [1, 2] (by omega) (by omega) (by simp)
+
+/-! ### password hashing: Argon2 over either backend
+
+`Model/Argon2.lean` (what C09 §1–§9 and the driver use) contains no BLAKE2b code at all: H0 is `Spec.Blake2b.hash` and
+H′ is the stand-in `Model.Argon2.longhash`.  Backend independence of password hashing is therefore a statement about
+`Model.Argon2.argon2HashCode C` (`Model/Argon2Code.lean`: `argon2_hash` with every BLAKE2b call going through the
+shared buffering model at compression function `C`).  As everywhere in this file, `C = Model.Blake2bSimd.compress`
+means "the shared `init/update/finalize/longhash` model at the SIMD compression function". -/
+
+/-- **H′ under the SIMD backend = the stand-in of `Model/Argon2.lean`**: `blake2b::longhash` (shared text) at the SIMD
+compression function returns what `Model.Argon2.longhash` returns, for every output length allowed by the two
+`assert!`s and every input shorter than 2^64 − 132 bytes. -/
+theorem simd_argon2_longhash_eq (n : Nat) (inp : Bytes) (h4 : 4 < n) (h32 : n < 2 ^ 32 - 1)
+    (hin : inp.length + 132 < 2 ^ 64) :
+    Model.Blake2b.longhashC Model.Blake2bSimd.compress n inp = Model.Argon2.longhash n inp := by
+  rw [simd_longhash_eq]
+  exact Proofs.Argon2Code.longhash_code_eq inp h4 (by omega) hin
+
+/-- non-vacuity witness: the 1024-byte H′ of a 72-byte seed (the call of `argon2_fill_first_blocks`) -/
+example : Model.Blake2b.longhashC Model.Blake2bSimd.compress 1024 (List.replicate 72 5)
+    = Model.Argon2.longhash 1024 (List.replicate 72 5) :=
+  simd_argon2_longhash_eq 1024 _ (by omega) (by omega) (by rw [List.length_replicate]; omega)
+
+/-- **Argon2's prehash under the SIMD backend**: `State::init(64, None, None, None)`, ANY sequence of `update`s,
+`finalize` into 64 bytes, at the SIMD compression function, is RFC 7693 BLAKE2b-512 of the concatenation — i.e. the
+value `Model/Argon2.lean` uses for H0 (C09 `initialHash_code_eq` is the software-backend instance on the `update`
+sequence of `argon2_initial_hash`). -/
+theorem simd_prehash_eq (cs : List Bytes) (h : cs.flatten.length + 128 < 2 ^ 128) :
+    hashChunksC Model.Blake2bSimd.compress 64 none none none cs = .ok (Spec.Blake2b.hash 64 [] cs.flatten) := by
+  rw [simd_hashChunks_eq]
+  exact Proofs.Argon2Code.prehash_soft_eq cs h
+
+/-- non-vacuity witness: the `update` sequence of `argon2_initial_hash` for the RFC 9106 §5.3 inputs -/
+example :
+    hashChunksC Model.Blake2bSimd.compress 64 none none none
+        (Model.Argon2.initialHashChunks 4 32 32 3 2 (List.replicate 32 1) (List.replicate 16 2)
+          (some (List.replicate 8 3)) (some (List.replicate 12 4)))
+      = .ok (Spec.Blake2b.hash 64 []
+        (Model.Argon2.initialHashChunks 4 32 32 3 2 (List.replicate 32 1) (List.replicate 16 2)
+          (some (List.replicate 8 3)) (some (List.replicate 12 4))).flatten) :=
+  simd_prehash_eq _ (by
+    rw [Proofs.Argon2Code.initialHashChunks_flatten]
+    have := Proofs.Argon2Code.initialHashInput_length_lt (p := 4) (outlen := 32) (m := 32) (t := 3) (ty := 2)
+      (pwd := List.replicate 32 1) (salt := List.replicate 16 2) (secret := some (List.replicate 8 3))
+      (ad := some (List.replicate 12 4)) (by simp) (by simp) (by simp) (by simp)
+    omega)
+
+/-- **`argon2_hash` does not depend on the backend**: the code-path model over the SIMD compression function = over
+the software one, for ALL arguments — same tag, same `Err`, same panic (no side condition: pure congruence in the
+compression function). -/
+theorem simd_argon2_eq (ty t m p : Nat) (pwd salt : Bytes) (secret ad : Option Bytes) (outlen : Nat) :
+    Model.Argon2.argon2HashCode Model.Blake2bSimd.compress ty t m p pwd salt secret ad outlen
+      = Model.Argon2.argon2HashCode Model.Blake2b.compress ty t m p pwd salt secret ad outlen :=
+  Proofs.Argon2Code.simd_argon2HashCode_eq ty t m p pwd salt secret ad outlen
+
+/-- **`crypto_pwhash` does not depend on the backend**, all arguments -/
+theorem simd_cryptoPwhash_eq (outlen : Nat) (pwd salt : Bytes) (opslimit memlimit alg : Nat) :
+    Model.Argon2.cryptoPwhashCode Model.Blake2bSimd.compress outlen pwd salt opslimit memlimit alg
+      = Model.Argon2.cryptoPwhashCode Model.Blake2b.compress outlen pwd salt opslimit memlimit alg :=
+  Proofs.Argon2Code.simd_cryptoPwhashCode_eq outlen pwd salt opslimit memlimit alg
+
+/-- … and under the SIMD backend, too, `argon2_hash` is the model the driver runs (`Model.Argon2.argon2Hash`) on the
+domain of C09's `argon2Hash_no_panic`, hence RFC 9106 Argon2 there (C09 `fill_memory_model_eq_spec`) -/
+theorem simd_argon2_eq_model {ty t m p : Nat} {pwd salt : Bytes} {secret ad : Option Bytes} {outlen : Nat}
+    (hout : outlen < 0xFFFFFFFF) (h7 : 7 * (max m (8 * p) / (4 * p)) < 2 ^ 32 + 3) :
+    Model.Argon2.argon2HashCode Model.Blake2bSimd.compress ty t m p pwd salt secret ad outlen
+      = Model.Argon2.argon2Hash ty t m p pwd salt secret ad outlen := by
+  rw [simd_argon2_eq]
+  exact Proofs.Argon2Code.argon2HashCode_eq_model hout h7
+
+/-- non-vacuity witness for `simd_argon2_eq_model`: an accepted Argon2id call (3 passes, 16 KiB, 2 lanes) -/
+example :
+    Model.Argon2.argon2HashCode Model.Blake2bSimd.compress 2 3 16 2 [1, 2, 3, 4] [0, 1, 2, 3, 4, 5, 6, 7]
+        (some [9]) (some [7, 7]) 32
+      = Model.Argon2.argon2Hash 2 3 16 2 [1, 2, 3, 4] [0, 1, 2, 3, 4, 5, 6, 7] (some [9]) (some [7, 7]) 32 :=
+  simd_argon2_eq_model (by decide) (by decide)
 
 /-- **`blake2b::hash`** (one-shot) under the SIMD backend = under the software backend, all arguments -/
 theorem simd_hash_eq (outLen : Nat) (input : Bytes) (key : Option Bytes) :
@@ -260,6 +356,24 @@ example {α β : Type} (viewA : α → Bytes) (viewB : β → Bytes)
       hashChunksC Model.Blake2b.compress outLen key salt personal (ys.map viewB) := by
   rw [h, simd_hashChunks_eq]
 
+/-! ## the premise of the buffering theorems, regenerated from the source on every run
+
+`simd_hashChunks_eq`, `simd_update_eq`, … instantiate ONE buffering model (`hashChunksC`) at two compression functions; that the
+buffering text of `blake2b_simd.rs` (counter, init, init_param, init0, update, finalize, hash, longhash, last-block flags) IS the
+software backend's is what `tools/rs2lean.py` (kernel `SimdText`) re-establishes from `/repo` on every run, token for token up to the
+representation of the chaining value and wipe-only statements.  A change to one backend's buffering alone turns an entry to
+`false` and this theorem stops checking. -/
+
+theorem translated_simd_buffering_text_same_as_software :
+    ∀ p ∈ Gen.SimdText.same_as_software, p.2 = true :=
+  Proofs.GenSimdText.simd_buffering_text_same_as_software
+
+theorem translated_simd_buffering_text_covers :
+    Gen.SimdText.same_as_software.map Prod.fst =
+      ["increment_counter", "init", "update", "finalize", "hash", "longhash", "set_lastnode", "is_lastblock", "set_lastblock",
+       "init_param", "init0"] :=
+  Proofs.GenSimdText.simd_buffering_text_covers
+
 end DryocVerif.Properties.C18
 
 open DryocVerif.Properties.C18 in
@@ -284,3 +398,17 @@ open DryocVerif.Properties.C18 in
 #print axioms simd_kx_eq
 open DryocVerif.Properties.C18 in
 #print axioms simd_seal_nonce_eq
+open DryocVerif.Properties.C18 in
+#print axioms simd_argon2_longhash_eq
+open DryocVerif.Properties.C18 in
+#print axioms simd_prehash_eq
+open DryocVerif.Properties.C18 in
+#print axioms simd_argon2_eq
+open DryocVerif.Properties.C18 in
+#print axioms simd_cryptoPwhash_eq
+open DryocVerif.Properties.C18 in
+#print axioms simd_argon2_eq_model
+open DryocVerif.Properties.C18 in
+#print axioms translated_simd_buffering_text_same_as_software
+open DryocVerif.Properties.C18 in
+#print axioms translated_simd_buffering_text_covers
